@@ -370,6 +370,42 @@ def run_case(case):
                                        'swapped': victim, 'before_op': [k_, op_]}})
                         break
         obs['directory_swaps'] = n_swaps
+        # ---- started with standard input CLOSED, from a directory that holds
+        # entries named like the payloads: descriptor 0 is then free for the
+        # program's own opens, and nothing may end up acting on the cwd
+        if case.get('index', 0) % 4 == 2 and not out['violations']:
+            with world.World(case) as w4:
+                twins = w4.R + '/cwd-with-twins'
+                os.makedirs(twins)
+                for e in case['entries']:
+                    nm = e['name']
+                    try:
+                        if e['kind'] in ('tree', 'dir_empty'):
+                            os.makedirs(twins + '/' + nm + '/inner')
+                            open(twins + '/' + nm + '/inner/keep', 'w').close()
+                        else:
+                            open(twins + '/' + nm, 'w').close()
+                        open(twins + '/' + nm + '.trashinfo', 'w').close()
+                    except OSError:
+                        pass
+                v0 = w4.snapshot()
+                plan = dict(plan0, stdin_closed=True)
+                opts4 = [world.subst(o, w4.R) for o in case['opts']]
+                if case['cmd'] == 'empty':
+                    r4 = run.run(w4, 'empty', opts4, stdin=b'', plan=plan, cwd=twins)
+                elif case['cmd'] == 'empty-days':
+                    r4 = run.run(w4, 'empty', opts4 + [str(case['days'])],
+                                 stdin=b'', plan=plan, cwd=twins)
+                else:
+                    r4 = run.run(w4, 'rm', [case['pattern']], stdin=b'', plan=plan,
+                                 cwd=twins)
+                v1 = w4.snapshot()
+                obs['runs_with_stdin_closed'] = 1
+                od4 = trashworld.outside_trash_diff(v0, v1, case['trashes'])
+                if od4:
+                    out['violations'].append({
+                        'mechanism': 'changed-outside-trash-with-stdin-closed/%s' % case['cmd'],
+                        'detail': {'diff': od4[:8], 'run': r4.brief()}})
         if case.get('abyss'):
             # how deep the purge gets before RecursionError depends on the
             # frames already on the interpreter's stack: not comparable
